@@ -171,3 +171,12 @@ Proof.
   intros Hn Hmin Hrfc Hh. rewrite gen_matches_model by assumption.
   rewrite apply_spec by assumption. now rewrite Hh.
 Qed.
+
+(* ---- commonerrors.ConvertContextError: the generated rule list is the model's [convert] *)
+Lemma convert_rules_gen e : conv_by_rules ConvertContextError_rules (Some e) = convert e.
+Proof. destruct e as [i s|[|]]; reflexivity. Qed.
+Lemma convert_rules_nil : conv_by_rules ConvertContextError_rules None = RNil.
+Proof. reflexivity. Qed.
+
+Lemma convert_only_ctx e : convert e = RCancelled \/ convert e = RTimeout -> exists k, e = ECtx k.
+Proof. destruct e as [i s|k]; simpl; [intros [H|H]; discriminate|eauto]. Qed.
